@@ -224,6 +224,35 @@ Theorem C15_collapse_to_base_inner_keeps_wf2 `{Sig} : forall E n ks pe e ne c w 
 Proof. exact halfcell_to_base_inner_wf. Qed.
 Print Assumptions C15_collapse_to_base_inner_keeps_wf2.
 
+(** The whole driver of the collapse towards an end point, for a boundary edge l (no right side) whose triangle
+    b0l -> l -> b1l has its next side on the boundary too: reads of the coordinates and anchor to keep, the half-cell,
+    the identifier of the resulting vertex, the writes of the kept data.  Its topological effect is exactly that of the
+    half-cell -- the triangle disappears, the 2-neighbour of b0l becomes a boundary dart, nothing else changes -- and it
+    leaves a well-formed map.  On every store. *)
+From HC Require Import Map2.CollapseBase.
+Theorem C15_collapse_to_base_boundary_edge_topology `{Sig} : forall E n ks b0l l b1l b0r b1r c w cnt vid w' cnt',
+  let x := beta w 2 b0l in
+  NoDup [b0l; l; b1l; x] -> b0l <> 0 -> l <> 0 -> b1l <> 0 ->
+  beta w 1 b0l = l -> beta w 1 l = b1l -> beta w 1 b1l = b0l ->
+  beta w 2 b1l = 0 -> beta w 2 l = 0 -> (x <> 0 -> beta w 2 x = b0l) ->
+  run E (collapse_edge_to_base n ks b0l l b1l b0r 0 b1r) c w cnt = (Done vid, w', cnt') ->
+  (forall i y, beta w' i y =
+     if (y =? b0l) || (y =? l) || (y =? b1l) then (if i <? 3 then 0 else beta w i y)
+     else if (i =? 2) && (y =? x) && negb (x =? 0) then 0
+     else beta w i y) /\
+  (forall y, unused w' y = if (y =? b0l) || (y =? l) || (y =? b1l) then true else unused w y).
+Proof. exact collapse_to_base_boundary. Qed.
+Print Assumptions C15_collapse_to_base_boundary_edge_topology.
+
+Theorem C15_collapse_to_base_boundary_edge_keeps_wf2 `{Sig} : forall E n ks b0l l b1l b0r b1r c w cnt vid w' cnt',
+  wf2 n w -> b0l < n -> b0l <> l -> b0l <> b1l -> l <> b1l -> l <> 0 -> b1l <> 0 ->
+  beta w 1 b0l = l -> beta w 1 l = b1l -> beta w 1 b1l = b0l ->
+  beta w 2 b1l = 0 -> beta w 2 l = 0 ->
+  run E (collapse_edge_to_base n ks b0l l b1l b0r 0 b1r) c w cnt = (Done vid, w', cnt') ->
+  wf2 n w'.
+Proof. exact collapse_to_base_boundary_wf. Qed.
+Print Assumptions C15_collapse_to_base_boundary_edge_keeps_wf2.
+
 (** The two half-cell routines of the edge collapse -- the programs the four collapse theorems above are about -- are,
     verbatim, what tools/tr_kern.py regenerates from remeshing/collapse.rs on every run: an edit of either routine
     changes Map2/GenKern.v and this theorem stops compiling. *)
